@@ -35,7 +35,7 @@ static const int GWEIGHT[NGROUP] = { 24, 14, 18, 10, 10, 10, 14 };
 enum { F_SVALS, F_PERM, F_ZEROLEAD, F_TRI, F_SPD, F_DIAG, NFAM };
 static const char *FNAME[NFAM] = { "svals", "perm", "zerolead", "tri", "spd", "diag" };
 
-static long ncases(int tier) { return tier ? 300000 : 6000; }
+static long ncases(int tier) { return tier ? 600000 : 30000; }
 
 /* ------------------------------------------------------------------ generators */
 static void round_to_double(ldm *A) { size_t i; for (i = 0; i < A->r * A->c; i++) A->a[i] = (ld)(double)A->a[i]; }
